@@ -532,10 +532,16 @@ def c12_oracle(w, rec):
             if step["op"] == "mv_ext" and any(under(p, s) for s in srcs) and \
                     ((op[0] == "rename" and n == 0) or op[0] == "rmdir"):
                 continue                                  # removing the named sources of an external move
+            if step["op"] == "mv_ext" and op[0] == "unlink" and p in srcs and p in rec["pre"].get("src_links", ()):
+                continue                                  # a named source that is a symbolic link: content copied, link removed
             return "mutating call %s%s targets %s outside the storage root and the staging root" % (
                 op[0], "" if ok else " (failed %s)" % errno, p)
     if pre["sentinel"] != post["sentinel"]:
         return "the tree around the two roots changed: %r" % (diff_snap(pre["sentinel"], post["sentinel"]),)
+    for where, sn in (("storage root", post["main"]), ("staging root", post["stg"])):
+        links = sorted(k for k, e in sn.items() if e[0] == "l")
+        if links:
+            return "symbolic link(s) inside the %s (writes to them leave the roots): %r" % (where, links[:3])
     if step["op"] in ("commit", "upgrade") and not d["exists"] and rec["rc"] != 0 and not rec["killed"] and not rec["inject"]:
         if pre["main"] != post["main"]:
             return "a refused commit changed the main repository: %r" % (diff_snap(pre["main"], post["main"]),)
@@ -903,6 +909,11 @@ def gen_history(rng, w, n_random, stats):
     for sp in specials:
         stats["hostile_mv_source_" + sp] = stats.get("hostile_mv_source_" + sp, 0) + 1
         steps.append({"op": "mv_ext", "id": A, "special": sp, "dst": "stolen-%s/" % sp[:6], "hostile": "mv-" + sp})
+    # (see SPECIAL_MV_LINK) mv of a link to a sentinel, then two overwrites of the same logical path, then the commit
+    stats["hostile_mv_source_" + SPECIAL_MV_LINK] = stats.get("hostile_mv_source_" + SPECIAL_MV_LINK, 0) + 1
+    steps += [{"op": "mv_ext", "id": A, "special": SPECIAL_MV_LINK, "dst": "linked.txt", "hostile": "mv-" + SPECIAL_MV_LINK},
+              {"op": "cp_ext", "id": A, "src": [src_file("over.txt")], "dst": "linked.txt"},
+              {"op": "cp_int", "id": A, "src": ["a.txt"], "dst": "linked.txt"}]
     steps.append({"op": "upgrade", "id": A} if (a_spec10 and not spec10) else commit(A))
     # an object planted OUTSIDE the storage root exactly where the layout maps a hostile id (fix 3fb070d: such a
     # layout path is never looked at): every operation on that id must leave the planted tree alone
@@ -1079,6 +1090,10 @@ SPECIAL_MV = ["committed-file", "committed-file-dotdot", "symlink-to-committed-f
 #  file renames the LINK into the object - after commit rocfl's own validator reports E090/E092; a C01 matter
 #  reported to the lead, not a footprint matter)
 SPECIAL_MV_OK = ["dir-with-symlink-inside"]
+# a named source that is itself a symbolic link to a file OUTSIDE the repository (a sentinel): since the repair of
+# move_file the content is copied and the link removed; the link's target must never be written through, neither by
+# this mv nor by later writes to the same logical path (follow-up steps), and no link may end up inside the roots
+SPECIAL_MV_LINK = "symlink-to-sentinel-file"
 
 
 def special_sources(w, pre, kind, rng):
@@ -1130,6 +1145,9 @@ def special_sources(w, pre, kind, rng):
         os.symlink(tgt, os.path.join(dd, "to-committed.txt"))
         os.symlink(os.path.dirname(tgt), os.path.join(dd, "sub", "to-committed-dir"))
         return [rel(dd)]
+    if kind == SPECIAL_MV_LINK:
+        os.symlink(os.path.join(w.outer, "sib", "s.txt"), os.path.join(sd, "sl.txt"))
+        return [rel(os.path.join(sd, "sl.txt"))]
     if kind == "symlink-to-outside-file":
         with open(os.path.join(sd, "target.txt"), "wb") as f:
             f.write(b"target")
@@ -1175,6 +1193,8 @@ def run_history(ctx, env, hno, layout, ext, ext_missing, seed, n_random, stats, 
                 continue
             pre = dict(pre)
             pre["src_ino"] = snap_ino(w.src)             # the sources were materialised just now
+            pre["src_links"] = [os.path.join(d_, f_) for d_, ds_, fs_ in os.walk(w.src) for f_ in fs_ + ds_
+                                if os.path.islink(os.path.join(d_, f_))]
         bak = None
         if n in fault_steps:
             bak = base + ".bak"
